@@ -163,6 +163,13 @@ class ExcVal:
         self.origin = origin
         self.tags = dict(tags or {})
 
+    def what_term(self, ctx):
+        """an opaque identifier of this exception's message (what())"""
+        if "what_id" not in self.tags:
+            w = self.what if isinstance(self.what, z3.ExprRef) else None
+            self.tags["what_id"] = w if w is not None else ctx.fresh("what_id")
+        return self.tags["what_id"]
+
     def __repr__(self):
         return "Exc(%s from %s)" % (self.cls, self.origin)
 
@@ -565,7 +572,8 @@ class Interp:
             return
         v = ctx.rv(v)
         v = self.k.on_local_init(self, d, v)
-        if isinstance(v, (z3.ExprRef, Ptr, Pair, Opt, Closure, ExcVal)) or v is None or isinstance(v, Void):
+        if isinstance(v, (z3.ExprRef, Ptr, Pair, Opt, Closure, ExcVal)) or v is None or isinstance(v, Void) \
+                or getattr(v, "is_value", False) or hasattr(v, "havoc"):
             loc = Loc(("L", ctx.frame.fid, d["id"], name))
             ctx.store[loc.key] = v
             ctx.frame.vars[d["id"]] = loc
@@ -756,6 +764,9 @@ class Interp:
             return Opt(ctx.fresh(name + "_has", "bool"), self.havoc_like(old.value, name + "_v"))
         if old is None or isinstance(old, Void):
             return old
+        hv = getattr(old, "havoc", None)
+        if hv is not None:
+            return hv(ctx, name)
         raise Gap("cannot havoc value %r" % (old,))
 
     def scan_modified_locals(self, nodes):
@@ -813,7 +824,27 @@ class Interp:
         raise Gap("do-while loop at line %s" % extract.line_of(n))
 
     def s_CXXForRangeStmt(self, n):
-        return self.k.range_for(self, n)
+        """for (decl : range) == { range/begin/end decls; for (; begin != end; ++begin) { decl = *begin; body } }
+        executed on the iterator models of the range's container"""
+        h = self.k.range_for(self, n)
+        if h is not NotImplemented:
+            return h
+        ks = n.get("inner", [])
+        parts = [p if isinstance(p, dict) and p.get("kind") else None for p in ks]
+        if len(parts) != 8:
+            raise Gap("range-for shape (%d parts) at line %s" % (len(parts), extract.line_of(n)))
+        init, rng, beg, end, cond, inc, var, body = parts
+        scope = []
+        self.ctx.frame.scopes = getattr(self.ctx.frame, "scopes", [])
+        self.ctx.frame.scopes.append(scope)
+        try:
+            for d in (init, rng, beg, end):
+                if d is not None:
+                    self.stmt(d)
+            wrapped = {"kind": "CompoundStmt", "inner": [var, body], "id": n.get("id", "") + ":body"}
+            return self._loop(n, None, cond, inc, wrapped, [cond, inc, var, body])
+        finally:
+            self.ctx.frame.scopes.pop()
 
     # ---- exceptions
     def s_CXXTryStmt(self, n):
@@ -1358,6 +1389,8 @@ class Interp:
             pass
         # 3. scalars / optionals with std methods
         v = ctx.rv(obj) if isinstance(obj, Loc) else obj
+        if name.startswith("operator bool") and (isinstance(v, (Ptr, Opt)) or hasattr(v, "truth")):
+            return self.truth(v)
         if isinstance(v, z3.ExprRef):
             if name in ("count", "time_since_epoch"):
                 return v
@@ -1562,6 +1595,9 @@ class Interp:
         a, i = kids(n)
         base = self.ctx.rv(self.expr(a))
         idx = self.ctx.rv(self.expr(i))
+        if isinstance(base, Ptr) and base.target is not None and hasattr(base.target, "index"):
+            self.ctx.oblige("nonnull@%s[]" % extract.line_of(n), z3.Not(base.null), kind="null-deref", line=extract.line_of(n))
+            base = base.target
         h = getattr(base, "index", None)
         if h is None:
             raise Gap("subscript on %r" % (base,))
